@@ -512,7 +512,8 @@ def render_pat(p):
     if k == "punit":
         return "()"
     if k == "pint":
-        return ("-" if p["neg"] else "") + "".join(str(d) for d in p["ds"])
+        suf = {"int8": "i8", "int16": "i16", "int32": "i32", "int64": "i64", "uint8": "u8", "uint16": "u16", "uint32": "u32", "uint64": "u64"}[p["ty"]] if p.get("suffix") else ""
+        return ("-" if p["neg"] else "") + "".join(str(d) for d in p["ds"]) + suf
     if k == "pbool":
         return "true" if p["v"] else "false"
     if k == "pstr":
